@@ -192,16 +192,12 @@ theorem addOrSubtract_spec (p q : List Nat) (hp : WF F.size p) (hq : WF F.size q
 omit hF in
 /-- adding two polynomials of the same length and the same leading coefficient cancels the top term -/
 theorem addOrSubtract_cancel (c : Nat) (ps qs : List Nat) (hc : c ≠ 0) (hl : ps.length = qs.length) :
-    ∃ r, addOrSubtract (c :: ps) (c :: qs) = .ok r ∧ r.length ≤ max 1 ps.length := by
+    addOrSubtract (c :: ps) (c :: qs) = .ok (normalize (List.zipWith (· ^^^ ·) ps qs)) := by
   unfold addOrSubtract
   rw [isZero_false hc, isZero_false hc]
   simp only [Bool.false_eq_true, if_false, List.length_cons, hl, Nat.lt_irrefl, gt_iff_lt, Nat.sub_self,
     List.take_zero, List.drop_zero, List.nil_append, List.zipWith_cons_cons, Nat.xor_self]
-  refine ⟨_, mkPoly_ok _ (by simp), ?_⟩
-  rw [normalize_zero_cons]
-  have := normalize_length_le' (List.zipWith (· ^^^ ·) ps qs)
-  simp at this
-  omega
+  rw [mkPoly_ok _ (by simp), normalize_zero_cons]
 
 /-! ### scaling, monomials -/
 
